@@ -216,6 +216,26 @@ def sampling(tier, rng, rep):
             c2e, r2e = Ecc.circle_parameters()
             if not np.all(np.abs(c2e - ce) <= 1e-6 * (1 + np.abs(ce))) or not np.all(np.abs(r2e - re_) <= 1e-6 * (1 + re_)) or not np.array_equal(Ecc.center_inside(), E.center_inside()):
                 rep.fail("double_complement", "of a Moebius image", {**inp, "M_re": M.real.tolist(), "M_im": M.imag.tolist()}); return
+            # the poles of the sphere (where one of the two conversion formulas degenerates) and points next to them
+            for sp_, nm_ in ((np.array([0.0, 0.0, 1.0]), "north"), (np.array([0.0, 0.0, -1.0]), "south")):
+                zz = cp.spherical_to_projective(sp_.copy())
+                big, small = (zz[1], zz[0]) if nm_ == "north" else (zz[0], zz[1])
+                if not (abs(small) <= 1e-12 and abs(big) > 1e-6):
+                    rep.fail("poles", f"spherical_to_projective({sp_.tolist()}) = {zz.tolist()}", {"spherical": sp_.tolist()}); return
+                back_ = cp.CP1Point(zz.copy()).spherical_coords()
+                if not np.all(np.abs(back_ - sp_) <= 1e-9):
+                    rep.fail("poles", f"round trip of the {nm_} pole: {np.asarray(back_).tolist()}", {"spherical": sp_.tolist()}); return
+                for eps_ in (1e-3, 1e-7):
+                    u_ = rng.normal(size=2); u_ = u_ / np.linalg.norm(u_) * eps_
+                    sq = np.array([u_[0], u_[1], sp_[2] * np.sqrt(1 - eps_ ** 2)])
+                    zq = cp.spherical_to_projective(sq.copy())
+                    # stereographic projection, written without cancellation on either hemisphere
+                    wq = (sq[0] + 1j * sq[1]) / (1 - sq[2]) if nm_ == "south" else (1 + sq[2]) / (sq[0] - 1j * sq[1])
+                    if not (abs(zq[1] - wq * zq[0]) <= 1e-12 * max(abs(zq[1]), abs(wq * zq[0]))):
+                        rep.fail("poles", f"near the {nm_} pole: {zq.tolist()} vs affine coordinate {wq}", {"spherical": sq.tolist()}); return
+                Dp = cp.CP1Disk(sp_[None].copy(), np.array([0.7]), radius_metric="fs", center_coords="spherical")
+                if not np.all(np.abs(Dp.fs_diameter() - 1.4) <= 1e-6) or not np.all(np.abs(Dp.fs_center().spherical_coords() - sp_) <= 1e-6):
+                    rep.fail("poles", f"Fubini-Study disk centred at the {nm_} pole reports {Dp.fs_diameter().tolist()}, {Dp.fs_center().spherical_coords().tolist()}", {"spherical": sp_.tolist()}); return
             # Fubini-Study: a disk built from spherical centre + FS radius reports them
             sc = rng.normal(size=(k, 3)); sc /= np.linalg.norm(sc, axis=-1, keepdims=True)
             fr = rng.uniform(0.1, 1.4, k)
